@@ -3,8 +3,19 @@ C19 — plugin registry: first registration wins, every plugin stays reachable.
 Property theorems only (helper lemmas: GlotaranProofs/Lemmas/C19.lean).
 All statements are about `Glotaran.C19.step` / `run`, for every registry state and every
 operation history (no bound on length).
+
+Sections: one registry dict (`step_keeps_short` … `registered_names_complete`); reachability under
+dotted names (`every_plugin_reachable_partial` / `_counterexample`, the exact characterisation
+`every_plugin_reachable_iff` and its corollaries); the three registries of `__PluginRegistry` as
+instances of the one model, over the table regenerated from the source (`known_names_instances` …
+`api_history_projects`, `supported_file_extensions_instances`); dispatch of the ten load/save
+convenience functions over the regenerated table (`dispatch_uses_resolution`) and the model of
+`infer_file_format` (`infer_file_format_spec`, `extOf_spec`).
 -/
 import GlotaranProofs.Lemmas.C19
+import GlotaranProofs.Lemmas.C19Reach
+import GlotaranProofs.Lemmas.C19Api
+import GlotaranModel.Generated.C19
 namespace Glotaran.C19
 
 /-- an op that is not a `set_plugin` call on short name `k` -/
@@ -305,6 +316,601 @@ theorem every_plugin_reachable_counterexample :
   revert hF
   decide
 
+/-! ### exactly when a plugin is shadowed under a dotted name
+
+A registration stores the plugin under its full key and — when the short name is already taken —
+under its plain full name as well (`runWrites`: every dict write to a dotted key of a history, in
+order).  Two registrations *collide* when they write the same dotted key with different full
+names. -/
+
+/-- two writes of the history go to the same dotted key with different full names -/
+def Collide (r : Registry) (ops : List Op) : Prop :=
+  ∃ w ∈ runWrites r ops, ∃ w' ∈ runWrites r ops, w.1 = w'.1 ∧ w.2.fullName ≠ w'.2.fullName
+
+/-- **Every plugin stays retrievable under every dotted name it was stored under, iff no two
+    registrations of the history collide on such a name.**  For every start registry and every
+    history; this is the exact form of the recorded finding (`m.A_b`+`c` vs `m.A`+`b_c`, and
+    `m.A_b` registered twice for one format vs `m.A`+`b`). -/
+theorem every_plugin_reachable_iff (r : Registry) (ops : List Op) :
+    (∀ w ∈ runWrites r ops, holdsName (run r ops) w.1 w.2.fullName) ↔ ¬ Collide r ops := by
+  constructor
+  · intro h ⟨w, hw, w', hw', hk, hne⟩
+    obtain ⟨q, hq, hqF⟩ := h w hw
+    obtain ⟨q', hq', hqF'⟩ := h w' hw'
+    rw [hk, hq'] at hq
+    cases hq
+    exact hne (hqF.symm.trans hqF')
+  · intro h w hw
+    obtain ⟨pi, _, hwo⟩ := (runWrites_spec ops r).1 w hw
+    obtain ⟨w', hw', hk, he⟩ := applyWrites_of_mem (runWrites r ops) (lookup r w.1) w.1 ⟨w, hw, rfl⟩
+    refine ⟨w'.2, ?_, ?_⟩
+    · rw [run_lookup_dotted ops r w.1 hwo.dotted]; exact he
+    · by_cases e : w'.2.fullName = w.2.fullName
+      · exact e
+      · exact absurd ⟨w', hw', w, hw, hk, e⟩ h
+
+/-- the registered plugins themselves (`accepted`: every accepted `add` / every key an
+    instantiating registration processed) are among the writes, under their full key: without a
+    collision every registered plugin is reachable under its full key -/
+theorem every_plugin_reachable_of_no_collision (r : Registry) (ops : List Op) (h : ¬ Collide r ops) :
+    ∀ pi ∈ accepted ops, holdsName (run r ops) (fullKey pi.1 pi.2) pi.1.fullName := by
+  intro pi hpi
+  exact (every_plugin_reachable_iff r ops).mpr h _ ((runWrites_spec ops r).2 pi hpi)
+
+/-- **Static form.**  If no registered plugin's plain full name is another one's full key
+    (`m.A_b` vs `m.A` + format `b`; the name is written only when the short name was taken, which
+    depends on the history), then all registered plugins are reachable under their full keys iff no
+    two of them with different full names share a full key. -/
+theorem every_plugin_reachable_iff_static (r : Registry) (ops : List Op)
+    (hsec : ∀ pi ∈ accepted ops, ∀ pi' ∈ accepted ops,
+      pi'.1.fullName = fullKey pi.1 pi.2 → pi'.1.fullName = pi.1.fullName) :
+    (∀ pi ∈ accepted ops, holdsName (run r ops) (fullKey pi.1 pi.2) pi.1.fullName) ↔
+    (∀ pi ∈ accepted ops, ∀ pi' ∈ accepted ops,
+      fullKey pi.1 pi.2 = fullKey pi'.1 pi'.2 → pi.1.fullName = pi'.1.fullName) := by
+  constructor
+  · intro h pi hpi pi' hpi' hk
+    obtain ⟨q, hq, hqF⟩ := h pi hpi
+    obtain ⟨q', hq', hqF'⟩ := h pi' hpi'
+    rw [hk, hq'] at hq
+    cases hq
+    exact hqF.symm.trans hqF'
+  · intro h pi hpi
+    have hmem := (runWrites_spec ops r).2 pi hpi
+    obtain ⟨w', hw', hk, he⟩ := applyWrites_of_mem (runWrites r ops) (lookup r (fullKey pi.1 pi.2))
+      (fullKey pi.1 pi.2) ⟨_, hmem, rfl⟩
+    refine ⟨w'.2, ?_, ?_⟩
+    · rw [run_lookup_dotted ops r _ (hasDot_fullKey pi.1 pi.2)]; exact he
+    · obtain ⟨pi', hpi', hp, hkey⟩ := (runWrites_spec ops r).1 w' hw'
+      rw [hp]
+      rcases hkey with e | e
+      · exact (h pi hpi pi' hpi' (by rw [← hk, e])).symm
+      · exact hsec pi hpi pi' hpi' (by rw [← e, hk])
+
+/-- a history registers class-style plugins only (`register_megacomplex`: no instance identifier) -/
+def Op.classStyle : Op → Prop
+  | .add _ _ id => id = ""
+  | .addInst keys _ _ _ => keys = []
+  | _ => True
+
+private theorem accepted_classStyle (ops : List Op) (hc : ∀ op ∈ ops, op.classStyle) :
+    ∀ pi ∈ accepted ops, pi.2 = "" := by
+  intro pi hpi
+  simp only [accepted, List.mem_flatMap] at hpi
+  obtain ⟨op, hop, hin⟩ := hpi
+  have := hc op hop
+  cases op with
+  | add key p id =>
+    simp only [Op.classStyle] at this
+    by_cases hk : hasDot key = true
+    · simp [acceptedOf, hk] at hin
+    · simp [acceptedOf, hk] at hin
+      rw [hin]; exact this
+  | addInst keys m n u =>
+    simp only [Op.classStyle] at this
+    simp [acceptedOf, this, acceptedInst] at hin
+  | setPlugin _ _ => simp [acceptedOf] at hin
+  | get _ => simp [acceptedOf] at hin
+  | registered _ => simp [acceptedOf] at hin
+
+/-- **In a class-style registry (the megacomplex registry) the clause holds without any
+    hypothesis**: the full key is the full name, so nothing can collide; after every history every
+    registered class is retrievable under its full name. -/
+theorem every_class_plugin_reachable (r : Registry) (ops : List Op) (hc : ∀ op ∈ ops, op.classStyle) :
+    ∀ pi ∈ accepted ops, holdsName (run r ops) pi.1.fullName pi.1.fullName := by
+  have hid := accepted_classStyle ops hc
+  have hfk : ∀ pi ∈ accepted ops, fullKey pi.1 pi.2 = pi.1.fullName := by
+    intro pi hpi; simp [fullKey, hid pi hpi]
+  intro pi hpi
+  have := (every_plugin_reachable_iff_static r ops
+    (fun a ha b _ e => by rw [e, hfk a ha])).mpr
+    (fun a ha b hb e => by rw [← hfk a ha, e, hfk b hb]) pi hpi
+  rwa [hfk pi hpi] at this
+
+/-- the second shape of the finding: class `m.A_b` registered twice for format `x` is stored under
+    its plain full name `m.A_b`, which is the full key of class `m.A` registered for format `b`
+    (no two *full keys* coincide here; `hsec` of the static form is what fails) -/
+theorem every_plugin_reachable_counterexample_plain_name :
+    let ops := [Op.addInst ["b"] "m" "A" 0, .addInst ["x"] "m" "A_b" 1, .addInst ["x"] "m" "A_b" 2]
+    Collide [] ops ∧ ¬ holdsName (run [] ops) (fullKey ⟨"m", "A", 0⟩ "b") "m.A" ∧
+    (∀ pi ∈ accepted ops, ∀ pi' ∈ accepted ops,
+      fullKey pi.1 pi.2 = fullKey pi'.1 pi'.2 → pi.1.fullName = pi'.1.fullName) := by
+  refine ⟨⟨("m.A_b", ⟨"m", "A", 0⟩), by decide, ("m.A_b", ⟨"m", "A_b", 2⟩), by decide, rfl, by decide⟩, ?_, by decide⟩
+  intro ⟨p', h, hF⟩
+  have : lookup (run [] [Op.addInst ["b"] "m" "A" 0, .addInst ["x"] "m" "A_b" 1, .addInst ["x"] "m" "A_b" 2])
+      (fullKey ⟨"m", "A", 0⟩ "b") = some ⟨"m", "A_b", 2⟩ := by decide
+  rw [this] at h
+  cases h
+  revert hF
+  decide
+
+/-! ### the three registries are instances of the one model (regenerated table `Generated.accessors`)
+
+`specApi` is the statement's side: which public function works on which dict of
+`__PluginRegistry` and which operation of the model it is.  The theorems say that the rows
+regenerated from the source (`Generated.accessors`, interpreted by `callApi`) do exactly that; they
+are re-checked against the current source text on every run. -/
+
+def specApi : List ApiSpec := [
+  ⟨"register_megacomplex", "megacomplex", .add⟩,
+  ⟨"is_known_megacomplex", "megacomplex", .isKnown⟩,
+  ⟨"get_megacomplex", "megacomplex", .get⟩,
+  ⟨"known_megacomplex_names", "megacomplex", .known⟩,
+  ⟨"set_megacomplex_plugin", "megacomplex", .set⟩,
+  ⟨"register_data_io", "data_io", .addInst⟩,
+  ⟨"is_known_data_format", "data_io", .isKnown⟩,
+  ⟨"get_data_io", "data_io", .get⟩,
+  ⟨"known_data_formats", "data_io", .known⟩,
+  ⟨"set_data_plugin", "data_io", .set⟩,
+  ⟨"register_project_io", "project_io", .addInst⟩,
+  ⟨"is_known_project_format", "project_io", .isKnown⟩,
+  ⟨"get_project_io", "project_io", .get⟩,
+  ⟨"known_project_formats", "project_io", .known⟩,
+  ⟨"set_project_plugin", "project_io", .set⟩]
+
+/-- every function the statement names exists in the source with the demanded shape -/
+def apiTableOk : Bool :=
+  specApi.all (fun s => match findAccessor Generated.accessors s.name with
+    | some a => accessorOk Generated.accessors a s false || accessorOk Generated.accessors a s true
+    | none => false)
+
+/-- and the source has no other function that touches `__PluginRegistry` (in particular no other
+    writer: "registries are only modified through the functions of base_registry.py") -/
+def apiTableClosed : Bool :=
+  Generated.accessors.all (fun a => specApi.any (fun s => s.name = a.name))
+
+private theorem apiTable_checked : apiTableOk = true ∧ apiTableClosed = true := by decide
+
+private theorem spec_row (s : ApiSpec) (hs : s ∈ specApi) :
+    ∃ a mf, findAccessor Generated.accessors s.name = some a ∧ accessorOk Generated.accessors a s mf = true := by
+  have h := apiTable_checked.1
+  unfold apiTableOk at h
+  rw [List.all_eq_true] at h
+  have := h s hs
+  cases hf : findAccessor Generated.accessors s.name with
+  | none => simp [hf] at this
+  | some a =>
+    simp only [hf, Bool.or_eq_true] at this
+    rcases this with h' | h'
+    · exact ⟨a, false, rfl, h'⟩
+    · exact ⟨a, true, rfl, h'⟩
+
+private theorem spec_attr (s : ApiSpec) (hs : s ∈ specApi) (rs : Registries) : ∃ r, rs.get s.attr = some r := by
+  have : s.attr = "megacomplex" ∨ s.attr = "data_io" ∨ s.attr = "project_io" := by
+    revert s; decide
+  rcases this with h | h | h <;> simp [Registries.get, h]
+
+/-- **`known_*`** (`known_megacomplex_names`, `known_data_formats`, `known_project_formats`): the
+    sorted keys of *their* registry — all of them with `full_names=True`, the undotted ones
+    otherwise and by default; exactly the registered keys (`registered_names_complete`). -/
+theorem known_names_instances (s : ApiSpec) (hs : s ∈ specApi) (hop : s.op = .known)
+    (rs : Registries) (r : Registry) (hr : rs.get s.attr = some r) :
+    (∀ full, callApi Generated.accessors s.name rs [.bool full] = (rs, .base (.names (sortedKeys r full)))) ∧
+    callApi Generated.accessors s.name rs [] = (rs, .base (.names (sortedKeys r false))) ∧
+    (∀ k, k ∈ sortedKeys r true ↔ ∃ p, lookup r k = some p) ∧
+    (∀ k, k ∈ sortedKeys r false ↔ (hasDot k = false ∧ ∃ p, lookup r k = some p)) := by
+  obtain ⟨a, mf, hf, hok⟩ := spec_row s hs
+  have h := callAccessor_known Generated.accessors a s rs r hop mf hok hr
+  refine ⟨?_, ?_, fun k => (registered_names_complete r k).1, fun k => (registered_names_complete r k).2⟩
+  · intro full; simp only [callApi, hf]; exact h.1 full
+  · simp only [callApi, hf]; exact h.2
+
+/-- **`is_known_*`**: membership in *their* registry, i.e. in the list `known_*(full_names=True)`
+    returns; the call changes nothing. -/
+theorem is_known_instances (s : ApiSpec) (hs : s ∈ specApi) (hop : s.op = .isKnown)
+    (rs : Registries) (r : Registry) (hr : rs.get s.attr = some r) (k : String) :
+    callApi Generated.accessors s.name rs [.str k] = (rs, .bool (lookup r k).isSome) ∧
+    ((lookup r k).isSome = true ↔ k ∈ sortedKeys r true) := by
+  obtain ⟨a, mf, hf, hok⟩ := spec_row s hs
+  refine ⟨?_, ?_⟩
+  · simp only [callApi, hf]; exact callAccessor_isKnown Generated.accessors a s rs r k hop mf hok hr
+  · rw [(registered_names_complete r k).1, Option.isSome_iff_exists]
+
+/-- **`get_*`**: the plugin their registry resolves, or a ValueError whose message lists the known
+    names: all undotted ones at least (`full = false`: exactly those — the io getters today;
+    `full = true`: the dotted keys as well — `get_megacomplex` today). -/
+theorem get_instances (s : ApiSpec) (hs : s ∈ specApi) (hop : s.op = .get) :
+    ∃ full, ∀ (rs : Registries) (r : Registry), rs.get s.attr = some r → ∀ k,
+      callApi Generated.accessors s.name rs [.str k] =
+        (rs, match lookup r k with
+             | some p => .base (.found p)
+             | none => .unknown k (sortedKeys r full)) ∧
+      (∀ k', hasDot k' = false → (∃ p, lookup r k' = some p) → k' ∈ sortedKeys r full) := by
+  obtain ⟨a, mf, hf, hok⟩ := spec_row s hs
+  have hg : getterOk Generated.accessors a s.attr mf = true := by
+    unfold accessorOk at hok
+    simp only [hop, Bool.and_eq_true] at hok
+    exact hok.2
+  refine ⟨mf, fun rs r hr k => ⟨?_, ?_⟩⟩
+  · simp only [callApi, hf]
+    exact callAccessor_getter Generated.accessors a s.attr mf rs r k hg hr
+  · intro k' hd hp
+    cases mf with
+    | false => exact (registered_names_complete r k').2.mpr ⟨hd, hp⟩
+    | true => exact (registered_names_complete r k').1.mpr hp
+
+/-- **`register_*` / `set_*_plugin`** are `step` of the model on their own registry:
+    `register_megacomplex(name, cls)` is `add name cls ""` (class-style, no instance identifier),
+    `register_data_io(names)(cls)` / `register_project_io(names)(cls)` are `addInst names cls`
+    (a single string counts as a one-element list), `set_*_plugin(name, full)` is `setPlugin`. -/
+theorem register_set_instances (s : ApiSpec) (hs : s ∈ specApi)
+    (rs : Registries) (r : Registry) (hr : rs.get s.attr = some r) :
+    (s.op = .add → ∀ k m n u, callApi Generated.accessors s.name rs [.str k, .cls m n u] =
+      (rs.set s.attr (step r (.add k ⟨m, n, u⟩ "")).1, .base (step r (.add k ⟨m, n, u⟩ "")).2)) ∧
+    (s.op = .addInst → ∀ kv keys m n u, keysOfVal kv = some keys →
+      callApi Generated.accessors s.name rs [kv, .cls m n u] =
+      (rs.set s.attr (step r (.addInst keys m n u)).1, .base (step r (.addInst keys m n u)).2)) ∧
+    (s.op = .set → ∀ k full, callApi Generated.accessors s.name rs [.str k, .str full] =
+      (rs.set s.attr (step r (.setPlugin k full)).1, .base (step r (.setPlugin k full)).2)) := by
+  obtain ⟨a, mf, hf, hok⟩ := spec_row s hs
+  refine ⟨?_, ?_, ?_⟩
+  · intro hop k m n u
+    simp only [callApi, hf]; exact callAccessor_add Generated.accessors a s rs r k m n u hop mf hok hr
+  · intro hop kv keys m n u hkv
+    simp only [callApi, hf]; exact callAccessor_addInst Generated.accessors a s rs r kv keys m n u hkv hop mf hok hr
+  · intro hop k full
+    simp only [callApi, hf]; exact callAccessor_set Generated.accessors a s rs r k full hop mf hok hr
+
+/-- a call of a public registry function with arguments of the documented kinds -/
+inductive ApiCall where
+  | register (name : String) (key : String) (m n : String) (u : Nat)               -- class-style
+  | registerInst (name : String) (keys : List String) (m n : String) (u : Nat)     -- instantiating decorator
+  | set (name : String) (key full : String)
+  | get (name : String) (key : String)
+  | isKnown (name : String) (key : String)
+  | known (name : String) (full : Bool)
+
+def ApiCall.name : ApiCall → String
+  | .register n .. | .registerInst n .. | .set n .. | .get n .. | .isKnown n .. | .known n .. => n
+
+def ApiCall.args : ApiCall → List Val
+  | .register _ k m n u => [.str k, .cls m n u]
+  | .registerInst _ keys m n u => [.strs keys, .cls m n u]
+  | .set _ k f => [.str k, .str f]
+  | .get _ k => [.str k]
+  | .isKnown _ k => [.str k]
+  | .known _ b => [.bool b]
+
+def ApiCall.kind : ApiCall → BaseOp
+  | .register .. => .add
+  | .registerInst .. => .addInst
+  | .set .. => .set
+  | .get .. => .get
+  | .isKnown .. => .isKnown
+  | .known .. => .known
+
+/-- the operation of the model a mutating call stands for -/
+def ApiCall.op? : ApiCall → Option Op
+  | .register _ k m n u => some (.add k ⟨m, n, u⟩ "")
+  | .registerInst _ keys m n u => some (.addInst keys m n u)
+  | .set _ k f => some (.setPlugin k f)
+  | _ => none
+
+def specOf (name : String) : Option ApiSpec := specApi.find? (fun s => s.name = name)
+
+/-- the function exists and is called with the kind of arguments it documents -/
+def ApiCall.WellTyped (c : ApiCall) : Prop := ∃ s, specOf c.name = some s ∧ s.op = c.kind
+
+/-- the model operation a call performs on registry `attr` (none: it belongs to another registry or
+    only reads) -/
+def ApiCall.opOn (attr : String) (c : ApiCall) : Option Op :=
+  match specOf c.name with
+  | some s => if s.attr = attr then c.op? else none
+  | none => none
+
+def runApi (accs : List Accessor) (rs : Registries) (cs : List ApiCall) : Registries :=
+  cs.foldl (fun s c => (callApi accs c.name s c.args).1) rs
+
+private theorem call_effect (rs : Registries) (c : ApiCall) (s : ApiSpec) (r : Registry)
+    (hs : specOf c.name = some s) (hk : s.op = c.kind) (hr : rs.get s.attr = some r) :
+    (callApi Generated.accessors c.name rs c.args).1 =
+      match c.op? with
+      | some op => rs.set s.attr (step r op).1
+      | none => rs := by
+  have hmem : s ∈ specApi := List.mem_of_find?_eq_some hs
+  have hname : s.name = c.name := by simpa using List.find?_some hs
+  rw [← hname]
+  cases c with
+  | register nm k m n u =>
+    rw [ApiCall.args, (register_set_instances s hmem rs r hr).1 hk]; rfl
+  | registerInst nm keys m n u =>
+    rw [ApiCall.args, (register_set_instances s hmem rs r hr).2.1 hk (.strs keys) keys m n u rfl]; rfl
+  | set nm k f =>
+    rw [ApiCall.args, (register_set_instances s hmem rs r hr).2.2 hk]; rfl
+  | get nm k =>
+    obtain ⟨full, hget⟩ := get_instances s hmem hk
+    rw [ApiCall.args, (hget rs r hr k).1]; rfl
+  | isKnown nm k => rw [ApiCall.args, (is_known_instances s hmem hk rs r hr k).1]; rfl
+  | known nm b => rw [ApiCall.args, (known_names_instances s hmem hk rs r hr).1]; rfl
+
+private theorem call_projects (rs : Registries) (c : ApiCall) (hc : c.WellTyped) (attr : String)
+    (r : Registry) (hr : rs.get attr = some r) :
+    (callApi Generated.accessors c.name rs c.args).1.get attr =
+      some (match c.opOn attr with
+            | some op => (step r op).1
+            | none => r) := by
+  obtain ⟨s, hs, hk⟩ := hc
+  have hmem : s ∈ specApi := List.mem_of_find?_eq_some hs
+  obtain ⟨r0, hr0⟩ := spec_attr s hmem rs
+  rw [call_effect rs c s r0 hs hk hr0]
+  unfold ApiCall.opOn
+  simp only [hs]
+  by_cases hat : s.attr = attr
+  · subst hat
+    rw [hr0] at hr; cases hr
+    simp only [if_true]
+    cases c.op? with
+    | none => simpa using hr0
+    | some op => simpa using Registries.get_set_same rs s.attr r _ hr0
+  · simp only [hat, if_false]
+    cases c.op? with
+    | none => simpa using hr
+    | some op =>
+      simp only
+      rw [Registries.get_set_other rs s.attr attr _ (fun e => hat e.symm)]; exact hr
+
+/-- **Every history of public API calls is, on each of the three registries, a history of the one
+    model**: the megacomplex / data-io / project-io dict after the calls is `run` of the projected
+    operation list on what it was before, and calls on one registry never touch another.  Hence
+    every theorem above (`first_registration_wins`, `conflict_warns_and_keeps`,
+    `set_plugin_repoints`, `every_plugin_reachable_iff`, …) holds for each registry's own API. -/
+theorem api_history_projects (cs : List ApiCall) (hcs : ∀ c ∈ cs, c.WellTyped) (attr : String) :
+    ∀ (rs : Registries) (r : Registry), rs.get attr = some r →
+      (runApi Generated.accessors rs cs).get attr = some (run r (cs.filterMap (ApiCall.opOn attr))) := by
+  induction cs with
+  | nil => intro rs r hr; simpa [runApi, run] using hr
+  | cons c cs ih =>
+    intro rs r hr
+    have h1 := call_projects rs c (hcs c (by simp)) attr r hr
+    have := ih (fun c' hc' => hcs c' (by simp [hc'])) _ _ h1
+    simp only [runApi, List.foldl_cons] at this ⊢
+    rw [this]
+    cases hop : c.opOn attr with
+    | none => simp [hop]
+    | some op => simp [hop, run_cons]
+
+/-- the lifted form of `first_registration_wins` for the instantiating registries: after
+    `register_data_io(k)(cls)` / `register_project_io(k)(cls)` on a free name `k`, any later history
+    of public calls (on any registry) without `set_*_plugin(k, …)` of that registry leaves
+    `get_data_io(k)` / `get_project_io(k)` resolving to that first instance. -/
+theorem first_registration_wins_public (sreg sget : ApiSpec) (hreg : sreg ∈ specApi) (hget : sget ∈ specApi)
+    (hro : sreg.op = .addInst) (hgo : sget.op = .get) (hattr : sget.attr = sreg.attr)
+    (rs : Registries) (r : Registry) (hr : rs.get sreg.attr = some r)
+    (k m n : String) (u : Nat) (hk : hasDot k = false) (hfree : lookup r k = none)
+    (cs : List ApiCall) (hcs : ∀ c ∈ cs, c.WellTyped)
+    (hnoset : ∀ c ∈ cs, ∀ op, c.opOn sreg.attr = some op → op.notSetOn k) :
+    (callApi Generated.accessors sget.name
+      (runApi Generated.accessors (callApi Generated.accessors sreg.name rs [.str k, .cls m n u]).1 cs)
+      [.str k]).2 = .base (.found ⟨m, n, u⟩) := by
+  have h1 := (register_set_instances sreg hreg rs r hr).2.1 hro (.str k) [k] m n u rfl
+  have hr1 : (callApi Generated.accessors sreg.name rs [.str k, .cls m n u]).1.get sreg.attr
+      = some (step r (.addInst [k] m n u)).1 := by
+    rw [h1]; exact Registries.get_set_same rs sreg.attr r _ hr
+  have h2 := api_history_projects cs hcs sreg.attr _ _ hr1
+  have hl : lookup (step r (.addInst [k] m n u)).1 k = some ⟨m, n, u⟩ := by
+    simp [step, addInstLoop, addOne, hk, hfree, lookup_insert]
+  have hkeep := run_keeps_short (cs.filterMap (ApiCall.opOn sreg.attr)) _ k ⟨m, n, u⟩ hk hl (by
+    intro op hop
+    obtain ⟨c, hc, hco⟩ := List.mem_filterMap.mp hop
+    exact hnoset c hc op hco)
+  have h2' : (runApi Generated.accessors (callApi Generated.accessors sreg.name rs [.str k, .cls m n u]).1 cs).get
+      sget.attr = some (run (step r (.addInst [k] m n u)).1 (cs.filterMap (ApiCall.opOn sreg.attr))) := by
+    rw [hattr]; exact h2
+  obtain ⟨full, hgi⟩ := get_instances sget hget hgo
+  rw [(hgi _ _ h2' k).1, hkeep]
+
+/-- the two generators of supported file extensions and the registry they must look at -/
+def specExt : List (String × String) :=
+  [("supported_file_extensions_data_io", "data_io"), ("supported_file_extensions_project_io", "project_io")]
+
+def extTableOk : Bool :=
+  specExt.all (fun s => Generated.extFns.any (fun e => decide (e.name = s.1))) &&
+  Generated.extFns.all (fun e => specExt.any (fun s => decide (e.name = s.1) &&
+    (extOk Generated.accessors e s.2 false || extOk Generated.accessors e s.2 true)))
+
+private theorem extTable_checked : extTableOk = true := by decide
+
+/-- **`supported_file_extensions_data_io` / `_project_io`** (regenerated table `Generated.extFns`):
+    the generator yields `"." ++ k` exactly for the short names `k` of *its own* registry that do not
+    end in `_str` and whose resolved plugin overrides every requested method (`implements`), in
+    sorted order of the names. -/
+theorem supported_file_extensions_instances :
+    (∀ s ∈ specExt, ∃ e ∈ Generated.extFns, e.name = s.1) ∧
+    ∀ e ∈ Generated.extFns, ∃ s ∈ specExt, s.1 = e.name ∧
+      ∀ (rs : Registries) (r : Registry), rs.get s.2 = some r →
+      ∀ (implements : Plugin → String → Bool) (methods : List String),
+        callExtFn Generated.accessors e rs implements methods
+          = some (supportedExtensions (sortedKeys r false) (lookup r) implements methods) ∧
+        ∀ ext, ext ∈ supportedExtensions (sortedKeys r false) (lookup r) implements methods ↔
+          ∃ k p, ext = "." ++ k ∧ hasDot k = false ∧ lookup r k = some p ∧ endsWithStr k = false ∧
+            ∀ m ∈ methods, implements p m = true := by
+  have h := extTable_checked
+  unfold extTableOk at h
+  simp only [Bool.and_eq_true, List.all_eq_true, List.any_eq_true, decide_eq_true_eq, Bool.or_eq_true] at h
+  obtain ⟨hex, hall⟩ := h
+  refine ⟨fun s hs => hex s hs, ?_⟩
+  intro e he
+  obtain ⟨s, hs, hname, hok⟩ := hall e he
+  refine ⟨s, hs, hname.symm, ?_⟩
+  intro rs r hr implements methods
+  constructor
+  · rcases hok with h' | h'
+    · exact callExtFn_of_ok _ e s.2 false rs r implements methods h' hr
+    · exact callExtFn_of_ok _ e s.2 true rs r implements methods h' hr
+  · intro ext
+    unfold supportedExtensions
+    rw [List.mem_filterMap]
+    constructor
+    · rintro ⟨k, hk, hf⟩
+      have hreg := (registered_names_complete r k).2.mp hk
+      cases hl : lookup r k with
+      | none => simp [hl] at hf
+      | some p =>
+        simp only [hl] at hf
+        split at hf
+        · rename_i hc
+          simp only [Bool.and_eq_true, Bool.not_eq_true', List.all_eq_true] at hc
+          cases hf
+          exact ⟨k, p, rfl, hreg.1, hl, hc.1, hc.2⟩
+        · cases hf
+    · rintro ⟨k, p, he, hd, hl, hs, hm⟩
+      refine ⟨k, (registered_names_complete r k).2.mpr ⟨hd, p, hl⟩, ?_⟩
+      have : (!endsWithStr k && methods.all (implements p)) = true := by
+        simp only [Bool.and_eq_true, Bool.not_eq_true', List.all_eq_true]
+        exact ⟨hs, hm⟩
+      simp [hl, this, he]
+
+/-! ### dispatch of the load/save convenience functions (regenerated table `Generated.convFns`) -/
+
+/-- the statement's side: the ten convenience functions, whose registry they consult, which
+    positional argument is the path (`format_name` follows it) and how the format is inferred:
+    `load_*` need an existing file, `save_*` do not, the two result functions accept a folder -/
+def specConv : List ConvSpec := [
+  ⟨"load_dataset", "data_io", 0, true, false⟩,
+  ⟨"save_dataset", "data_io", 1, false, false⟩,
+  ⟨"load_model", "project_io", 0, true, false⟩,
+  ⟨"save_model", "project_io", 1, false, false⟩,
+  ⟨"load_parameters", "project_io", 0, true, false⟩,
+  ⟨"save_parameters", "project_io", 1, false, false⟩,
+  ⟨"load_scheme", "project_io", 0, true, false⟩,
+  ⟨"save_scheme", "project_io", 1, false, false⟩,
+  ⟨"load_result", "project_io", 0, true, true⟩,
+  ⟨"save_result", "project_io", 1, false, true⟩]
+
+/-- every `load_*` / `save_*` function found in the source is one of the ten and has the demanded
+    shape: one registry access, `get_*_io(format_name or infer_file_format(<path>, flags…))` with
+    the flags of `specConv` (signature defaults of `infer_file_format` included), the object bound
+    to a variable that is used for exactly one call of the method of the same name -/
+def convTableOk : Bool :=
+  decide (Generated.inferDefaults? = some (true, false)) &&
+  Generated.convFns.all (fun f => specConv.any (fun s =>
+    convOk Generated.accessors Generated.inferDefaults f s false || convOk Generated.accessors Generated.inferDefaults f s true)) &&
+  specConv.all (fun s => Generated.convFns.any (fun f => decide (f.name = s.name)))
+
+private theorem convTable_checked : convTableOk = true := by decide
+
+/-- **Dispatch.**  For every convenience function `f` of the regenerated table, every state of
+    the three registries (in particular the one after any history of registrations and
+    `set_*_plugin` calls, `api_history_projects`), every path, file-system answer and
+    `format_name` (absent, empty or given): the call resolves the given — else the inferred —
+    format in `f`'s own registry and invokes exactly the method `f.name` of that plugin; an
+    inference failure or an unknown format is a ValueError (naming the known formats: `full`
+    is what `get_instances` says about the getter's message) and no plugin is touched.  All ten functions of the statement are in the table. -/
+theorem dispatch_uses_resolution :
+    (∀ s ∈ specConv, ∃ f ∈ Generated.convFns, f.name = s.name) ∧
+    ∀ f ∈ Generated.convFns, ∃ s ∈ specConv, ∃ full, s.name = f.name ∧
+      ∀ (rs : Registries) (r : Registry), rs.get s.attr = some r →
+      ∀ (args : List Val) (isFile : String → Bool) (given : Option String) (path : String),
+        args[s.pathIdx]? = some (.str path) → args[s.pathIdx + 1]? = some (optVal given) →
+        dispatch Generated.accessors Generated.inferDefaults f rs args isFile
+          = specDispatch s full r given path (isFile path) := by
+  have h := convTable_checked
+  unfold convTableOk at h
+  simp only [Bool.and_eq_true, List.all_eq_true, List.any_eq_true, decide_eq_true_eq, Bool.or_eq_true] at h
+  obtain ⟨⟨_, hall⟩, hex⟩ := h
+  refine ⟨hex, ?_⟩
+  intro f hf
+  obtain ⟨s, hs, hok⟩ := hall f hf
+  have key : ∀ full, convOk Generated.accessors Generated.inferDefaults f s full = true →
+      ∃ s ∈ specConv, ∃ full, s.name = f.name ∧
+      ∀ (rs : Registries) (r : Registry), rs.get s.attr = some r →
+      ∀ (args : List Val) (isFile : String → Bool) (given : Option String) (path : String),
+        args[s.pathIdx]? = some (.str path) → args[s.pathIdx + 1]? = some (optVal given) →
+        dispatch Generated.accessors Generated.inferDefaults f rs args isFile
+          = specDispatch s full r given path (isFile path) := by
+    intro full hok
+    have hname : f.name = s.name := by
+      unfold convOk at hok
+      simp only [Bool.and_eq_true, decide_eq_true_eq] at hok
+      exact hok.1.1.1.1
+    refine ⟨s, hs, full, hname.symm, ?_⟩
+    intro rs r hr args isFile given path hp hg
+    exact dispatch_of_convOk _ _ f s rs r args isFile given path full hok hr hp hg
+  rcases hok with h' | h'
+  · exact key false h'
+  · exact key true h'
+
+/-- what the resolved format is, in the statement's words: a non-empty `format_name` wins and the
+    file is not even looked at; otherwise the extension decides, `yml` reads as `yaml`; a path
+    without extension is `yaml` for the result functions and an error elsewhere; a missing file is
+    an error only for the `load_*` functions that do not accept folders -/
+theorem infer_file_format_spec (path : String) (isFile nte af : Bool) :
+    (isFile = false → nte = true → af = false → inferFileFormat path isFile nte af = .error .noFile) ∧
+    ((isFile = true ∨ nte = false ∨ af = true) →
+      inferFileFormat path isFile nte af =
+        match extOf path with
+        | some e => .ok (if e = "yml" then "yaml" else e)
+        | none => if af then .ok "yaml" else .error .noExtension) := by
+  constructor
+  · intro h1 h2 h3; simp [inferFileFormat, h1, h2, h3]
+  · intro h
+    have : (!isFile && nte && !af) = false := by
+      rcases h with h | h | h <;> simp [h]
+    simp only [inferFileFormat, this, Bool.false_eq_true, if_false]
+    cases extOf path <;> rfl
+
+/-- `os.path.splitext` on a path that ends in `<stem>.<ext>`: `ext` (without dots and slashes) is
+    the extension provided the last component has a character other than `.` before that dot -/
+theorem extOf_spec (dir stem ext : List Char) (hstem : ∀ c ∈ stem, c ≠ '/') (hnd : ∃ c ∈ stem, c ≠ '.')
+    (hext : ∀ c ∈ ext, c ≠ '.' ∧ c ≠ '/') (hdir : dir = [] ∨ dir.getLast? = some '/') :
+    extOf (String.ofList (dir ++ stem ++ '.' :: ext)) = some (String.ofList ext) := by
+  unfold extOf
+  simp only [String.toList_ofList, List.reverse_append, List.reverse_cons, List.append_assoc]
+  have hbase : ((ext.reverse ++ ['.']) ++ (stem.reverse ++ dir.reverse)).takeWhile (· ≠ '/')
+      = ext.reverse ++ '.' :: stem.reverse := by
+    have : (ext.reverse ++ ['.']) ++ (stem.reverse ++ dir.reverse)
+        = (ext.reverse ++ '.' :: stem.reverse) ++ dir.reverse := by simp
+    rw [this]
+    apply takeWhile_prefix
+    · intro a ha
+      simp only [List.mem_append, List.mem_reverse, List.mem_cons] at ha
+      rcases ha with h | h | h
+      · simpa using (hext a h).2
+      · subst h; decide
+      · simpa using hstem a h
+    · rcases hdir with e | e
+      · left; simp [e]
+      · right
+        cases hd : dir.reverse with
+        | nil => simp at hd; subst hd; simp at e
+        | cons b t =>
+          refine ⟨b, t, rfl, ?_⟩
+          have : dir.getLast? = some b := by
+            rw [← List.head?_reverse, hd]; rfl
+          rw [this] at e; cases e; decide
+  simp only [List.append_assoc, List.cons_append, List.nil_append] at hbase ⊢
+  rw [hbase]
+  have h1 : (ext.reverse ++ '.' :: stem.reverse).takeWhile (· ≠ '.') = ext.reverse := by
+    apply takeWhile_prefix
+    · intro a ha; simpa using (hext a (by simpa using ha)).1
+    · right; exact ⟨'.', stem.reverse, rfl, by decide⟩
+  have h2 : (ext.reverse ++ '.' :: stem.reverse).dropWhile (· ≠ '.') = '.' :: stem.reverse := by
+    rw [List.dropWhile_append_of_pos (by intro a ha; simpa using (hext a (by simpa using ha)).1)]
+    simp
+  rw [h1, h2]
+  obtain ⟨c, hc, hcd⟩ := hnd
+  simp
+  exact ⟨c, hc, hcd⟩
+
 /-! ### non-vacuity: the hypotheses are met by concrete non-trivial states -/
 
 example : hasDot "csv" = false ∧ lookup [("nc", ⟨"m", "Nc", 0⟩)] "csv" = none := by decide
@@ -312,5 +918,89 @@ example : (run (step [("csv", ⟨"m", "A", 0⟩)] (.add "csv" ⟨"x", "B", 1⟩ 
     [.get "csv", .add "csv" ⟨"y", "C", 2⟩ "csv"]).length = 5 := by decide
 example : Op.noClash (fullKey ⟨"m", "A", 1⟩ "csv") "m.A" (.add "tsv" ⟨"m", "A", 2⟩ "tsv") := by
   constructor <;> decide
+
+-- every_plugin_reachable_iff: a colliding and a collision-free history, both with ≥ 2 writes
+example : Collide [] [.add "c" ⟨"m", "A_b", 1⟩ "c", .add "b_c" ⟨"m", "A", 2⟩ "b_c"] :=
+  ⟨("m.A_b_c", ⟨"m", "A_b", 1⟩), by decide, ("m.A_b_c", ⟨"m", "A", 2⟩), by decide, rfl, by decide⟩
+example : runWrites [] [.addInst ["a"] "m" "A" 0, .addInst ["a", "b"] "m" "B" 1]
+    = [("m.A_a", ⟨"m", "A", 0⟩), ("m.B_a", ⟨"m", "B", 1⟩), ("m.B", ⟨"m", "B", 1⟩), ("m.B_b", ⟨"m", "B", 2⟩)] := by
+  decide
+example : accepted [.addInst ["a", "x.y", "b"] "m" "B" 1, .add "k" ⟨"m", "M", 9⟩ ""]
+    = [(⟨"m", "B", 1⟩, "a"), (⟨"m", "M", 9⟩, "")] := by decide
+-- every_class_plugin_reachable: two classes competing for one name
+example : ∀ op ∈ [Op.add "decay" ⟨"m", "A", 0⟩ "", .add "decay" ⟨"x", "B", 1⟩ "", .setPlugin "decay" "x.B"],
+    op.classStyle := by simp [Op.classStyle]
+
+-- the three registries after some registrations (used by the examples below)
+def exRs : Registries :=
+  { megacomplex := run [] [.add "decay" ⟨"m", "A", 100⟩ "", .add "decay" ⟨"x", "B", 101⟩ ""],
+    dataIo := run [] [.addInst ["nc", "a"] "m" "N" 0],
+    projectIo := run [] [.addInst ["yaml", "yml"] "m" "Y" 2, .addInst ["yml", "csv"] "m" "Z" 4, .setPlugin "csv" "m.Y_yaml"] }
+
+-- the instance theorems: rows of `specApi` of every kind, and the table rows evaluated on `exRs`
+example : (⟨"known_data_formats", "data_io", .known⟩ : ApiSpec) ∈ specApi ∧
+    (⟨"is_known_megacomplex", "megacomplex", .isKnown⟩ : ApiSpec) ∈ specApi ∧
+    (⟨"get_project_io", "project_io", .get⟩ : ApiSpec) ∈ specApi ∧
+    (⟨"register_megacomplex", "megacomplex", .add⟩ : ApiSpec) ∈ specApi ∧
+    (⟨"register_data_io", "data_io", .addInst⟩ : ApiSpec) ∈ specApi ∧
+    (⟨"set_project_plugin", "project_io", .set⟩ : ApiSpec) ∈ specApi := by decide
+def unknownKey : ApiOut → Option String
+  | .unknown k _ => some k
+  | _ => none
+example : (callApi Generated.accessors "is_known_data_format" exRs [.str "m.N_a"]).2 = .bool true ∧
+    (callApi Generated.accessors "is_known_data_format" exRs [.str "yaml"]).2 = .bool false ∧
+    (callApi Generated.accessors "get_project_io" exRs [.str "csv"]).2 = .base (.found ⟨"m", "Y", 2⟩) ∧
+    (callApi Generated.accessors "get_megacomplex" exRs [.str "decay"]).2 = .base (.found ⟨"m", "A", 100⟩) ∧
+    (callApi Generated.accessors "get_megacomplex" exRs [.str "x.B"]).2 = .base (.found ⟨"x", "B", 101⟩) ∧
+    unknownKey (callApi Generated.accessors "get_data_io" exRs [.str "yaml"]).2 = some "yaml" ∧
+    (callApi Generated.accessors "register_project_io" exRs [.str "csv", .cls "m" "W" 9]).2 = .base (.oks [true]) ∧
+    (callApi Generated.accessors "set_megacomplex_plugin" exRs [.str "decay", .str "x.B"]).2 = .base .done := by decide
+-- api_history_projects / first_registration_wins_public: a well-typed mixed history
+private theorem wellTyped_of_check (c : ApiCall)
+    (h : (match specOf c.name with
+          | some s => decide (s.op = c.kind)
+          | none => false) = true) : c.WellTyped := by
+  cases hs : specOf c.name with
+  | none => simp [hs] at h
+  | some s => exact ⟨s, hs, by simpa [hs] using h⟩
+example : ∀ c ∈ [ApiCall.registerInst "register_data_io" ["a"] "m" "N" 0, .register "register_megacomplex" "a" "m" "A" 100,
+      .set "set_data_plugin" "b" "m.N_a", .get "get_project_io" "a", .known "known_data_formats" true,
+      .isKnown "is_known_megacomplex" "a"], c.WellTyped := by
+  intro c hc
+  simp only [List.mem_cons, List.mem_nil_iff, or_false] at hc
+  rcases hc with h | h | h | h | h | h <;> subst h <;> exact wellTyped_of_check _ (by decide)
+example : [ApiCall.registerInst "register_data_io" ["a"] "m" "N" 0, .register "register_megacomplex" "a" "m" "A" 100,
+      .set "set_data_plugin" "b" "m.N_a", .get "get_project_io" "a"].filterMap (ApiCall.opOn "data_io")
+    = [.addInst ["a"] "m" "N" 0, .setPlugin "b" "m.N_a"] := by decide
+-- dispatch_uses_resolution: the table rows evaluated (inferred yml → yaml, given format wins, folder → yaml for results,
+-- missing file, no extension, unknown format, data functions use the data registry)
+example :
+    dispatchByName Generated.accessors Generated.convFns Generated.inferDefaults "load_model" exRs
+      [.str "d.x/f.yml", .none_] (fun _ => true) = .called ["load_model"] ⟨"m", "Y", 2⟩ ∧
+    dispatchByName Generated.accessors Generated.convFns Generated.inferDefaults "save_scheme" exRs
+      [.obj, .str "new/f.txt", .str "yml"] (fun _ => false) = .called ["save_scheme"] ⟨"m", "Y", 3⟩ ∧
+    dispatchByName Generated.accessors Generated.convFns Generated.inferDefaults "save_result" exRs
+      [.obj, .str "results/run_0", .str ""] (fun _ => false) = .called ["save_result"] ⟨"m", "Y", 2⟩ ∧
+    dispatchByName Generated.accessors Generated.convFns Generated.inferDefaults "load_parameters" exRs
+      [.str "gone.csv", .none_] (fun _ => false) = .inferError .noFile ∧
+    dispatchByName Generated.accessors Generated.convFns Generated.inferDefaults "save_parameters" exRs
+      [.obj, .str "d.x/noext", .none_] (fun _ => false) = .inferError .noExtension ∧
+    unknownKey (dispatchByName Generated.accessors Generated.convFns Generated.inferDefaults "load_dataset" exRs
+      [.str "f.yaml", .none_] (fun _ => true)) = some "yaml" ∧
+    dispatchByName Generated.accessors Generated.convFns Generated.inferDefaults "save_dataset" exRs
+      [.obj, .str "f.nc", .none_] (fun _ => false) = .called ["save_dataset"] ⟨"m", "N", 0⟩ := by decide
+example : (⟨"save_result", "project_io", 1, false, true⟩ : ConvSpec) ∈ specConv ∧
+    exRs.get "project_io" = some exRs.projectIo := by decide
+-- infer_file_format_spec / extOf_spec
+example : extOf "d.x/f.yml" = some "yml" ∧ extOf "d.x/noext" = none ∧ extOf ".hidden" = none ∧ extOf "a." = some "" ∧
+    extOf "g.tar.gz" = some "gz" ∧ extOf "..b" = none := by decide
+example : (∀ c ∈ "f".toList, c ≠ '/') ∧ (∃ c ∈ "f".toList, c ≠ '.') ∧ (∀ c ∈ "yml".toList, c ≠ '.' ∧ c ≠ '/') ∧
+    "d.x/".toList.getLast? = some '/' := by decide
+
+-- supported_file_extensions_instances: the filter on concrete keys and plugins
+example : supportedExtensions ["csv", "md_str", "yml", "zz"]
+      (lookup [("csv", ⟨"m", "C", 0⟩), ("md_str", ⟨"m", "C", 1⟩), ("yml", ⟨"m", "Y", 2⟩)])
+      (fun p m => p.name = "C" || m = "load_model") ["load_model", "save_model"] = [".csv"] ∧
+    endsWithStr "md_str" = true ∧ endsWithStr "str" = false := by decide
 
 end Glotaran.C19
